@@ -154,6 +154,19 @@ func histOps(reduced bool) []HOp {
 			sv := sv
 			add(HOp{Name: fmt.Sprintf("%s.SetString(%q)", dn, sv), Dst: d, Do: func(z *Dec, s []*Dec) { z.SetString(sv) }, PrecRule: prConst, PrecConst: 34, CopiesAttrsFrom: -1, ModeSet: -1})
 		}
+		// literals that are rejected: "the value of z is valid but not defined" — the state must stay canonical
+		bad := []string{"1e2147483648", "77e-2147483652", "9.9x", "1e99999999999999999999", "0.5e2147483648", "0x1p", "1__2"}
+		if reduced {
+			bad = []string{"1e2147483648", "77e-2147483652", "9.9x"}
+		}
+		for _, sv := range bad {
+			sv := sv
+			add(HOp{Name: fmt.Sprintf("%s.SetString(%q) [rejected]", dn, sv), Dst: d, Do: func(z *Dec, s []*Dec) {
+				if _, ok := z.SetString(sv); ok {
+					panic("SetString accepted " + sv)
+				}
+			}, PrecRule: prFree, CopiesAttrsFrom: -1, ModeSet: -1, NoDiff: true})
+		}
 		for _, f := range []float64{0.25, 1e300, -0.1, 12345, 4503599627370497} {
 			f := f
 			add(HOp{Name: fmt.Sprintf("%s.SetFloat64(%v)", dn, f), Dst: d, Do: func(z *Dec, s []*Dec) { z.SetFloat64(f) }, PrecRule: prConst, PrecConst: 17, CopiesAttrsFrom: -1, ModeSet: -1})
@@ -708,9 +721,23 @@ func init() {
 			"documented precision-0 rules as encoded in mc/hist.go (arith: max operand precision; Sqrt/Set/Neg/Abs: x's; integer setters 34 or digit count; strings 34; SetFloat64 17; SetFloat ⌈bits·log10 2⌉; copiers: Copy, SetMantExp, MantExp out-parameter, GobDecode into precision 0)",
 			"SetBitsExp on a precision-0 receiver has no documented rule: any precision >= MinPrec is accepted",
 			"transient write-then-restore of an operand is additionally covered by the write-protection layer (mc/wprot.go)",
+			"layers S*/H1/H2/H5/L* re-run the argument catalogues of C14/C15/C01 judging only the receiver's precision and mode after the call",
 		},
 		Layers: func(tier string) []Layer {
-			return append(histLayers(judgeAttrs, tier, "attribute model and operand immutability (C09)"), wprotLayers(tier, "C09")...)
+			ls := append(histLayers(judgeAttrs, tier, "attribute model and operand immutability (C09)"), wprotLayers(tier, "C09")...)
+			// the argument catalogues of the setters / conversions / arithmetic, judged on (precision, mode) only
+			ls = append(ls, setterLayers(judgeAttr, tier)...)
+			for _, l := range floatLayers(tier) {
+				if strings.HasPrefix(l.Name, "H1-") || strings.HasPrefix(l.Name, "H2-") || strings.HasPrefix(l.Name, "H5-") {
+					ls = append(ls, l)
+				}
+			}
+			for _, l := range arithLayers(judgeAttr, tier) {
+				if !strings.HasPrefix(l.Name, "L1-") {
+					ls = append(ls, l)
+				}
+			}
+			return ls
 		},
 		Stats: histStats("C09"),
 	})
